@@ -97,3 +97,26 @@ Example C15_example :
                    [mk 0x1.4cccccccccccdp-1%float; mk 0x1.a8f5c28f5c28fp-1%float; mk 0x1.eb851eb851eb8p-2%float; mk 0x1.1eb851eb851ecp-1%float]
                    None None false = inr ([1; 2; 3], [3; 4; 1]).
 Proof. vm_compute. reflexivity. Qed.
+
+(* ---- the binary64 instance: < on doubles is a strict order (Base.FloatOrder, from the standard library's specification axiom
+        FloatAxioms.ltb_spec), so the clause holds for the distances the code computes *)
+From HV Require Import Base.FloatOrder.
+Theorem C15_distinct_nearest_gets_nearest_float overD sbands rbands (dm : nat -> nat -> option float) (nearest : nat -> nat) :
+  length sbands <= length rbands ->
+  (forall i, i < length sbands -> nearest i < length rbands) ->
+  (forall i i', i < length sbands -> i' < length sbands -> nearest i = nearest i' -> i = i') ->
+  (forall i, i < length sbands -> exists d, dm i (nearest i) = Some d /\ overD d = false /\
+       forall j d', j < length rbands -> j <> nearest i -> dm i j = Some d' -> PrimFloat.ltb d d' = true) ->
+  match_core float PrimFloat.ltb overD sbands rbands true dm false = inr (sbands, map (fun i => nth (nearest i) rbands 0) (seq 0 (length sbands))).
+Proof. exact (C15_distinct_nearest_gets_nearest float PrimFloat.ltb overD sbands rbands dm nearest float_ltb_irrefl float_ltb_trans). Qed.
+Print Assumptions C15_distinct_nearest_gets_nearest_float.
+
+(* ---- tie to the source: the 10 % tolerance and the standard RGB wavelengths of the current matched_pair.py are the model's constants, bit for bit;
+        the tolerance test is "any matched distance strictly greater"; distances are relative to the source wavelength *)
+From HVgen Require Import Blocks.
+From HV Require Import Tie.BlockTie.
+Theorem C15_source_constants :
+  gen_max_rel_wavelength_diff = Match.tol /\ std_cw CRed = Some gen_std_cw_red /\ std_cw CGreen = Some gen_std_cw_green /\
+  std_cw CBlue = Some gen_std_cw_blue /\ gen_rgb_defaults_only_for_three_bands = true /\ gen_over_tolerance_is_strict_any = true /\
+  gen_rel_dist_by_source = true.
+Proof. exact tie_band_constants. Qed.
